@@ -122,9 +122,10 @@ CanonRot(r) == LET d == Dedup(r) IN
                ELSE LET ks == {k \in 1..Len(d) : \A m \in 1..Len(d) : LexLe(d[k], d[m])}
                         cands == {RotTo(d, k) : k \in ks}
                     IN CHOOSE c \in cands : \A c2 \in cands : SeqLexLe(c, c2)
-\* canonical form up to start, direction and repeated vertices
-CanonRing(r) == LET d == Dedup(r) IN
-                IF Area2(d) < 0 THEN CanonRot(RevSeq(d)) ELSE CanonRot(d)
+\* canonical form up to start, direction and repeated vertices (no arithmetic: the smaller of
+\* the two directions' canonical rotations, so it also works on coordinates up to 2^30)
+CanonRing(r) == LET d == Dedup(r)  a == CanonRot(d)  b == CanonRot(RevSeq(d))
+                IN IF SeqLexLe(a, b) THEN a ELSE b
 CanonPoly(poly, dirFree) ==
   LET c(r) == IF dirFree THEN CanonRing(r) ELSE CanonRot(r)
   IN <<c(poly[1]), { c(poly[j]) : j \in 2..Len(poly) }>>
